@@ -1,7 +1,8 @@
 //! C09: the same filter in `.where(...)` and as the filter of a sequence step.
 //! Every case is rendered three ways: as model tokens, as VPL text loaded through
 //! `varpulis_parser::parse` + `Engine::load` (a filter stream and a two-step sequence stream
-//! `Start as s -> T where <filter> as t`), and as an AST handed directly to the VPL evaluator and to
+//! `Start as s -> T where <filter> as t`, plus a step on the derived stream `F = T.where(<filter>)`,
+//! whose filter the compiler merges into the step), and as an AST handed directly to the VPL evaluator and to
 //! `expr_to_sase_predicate` + `eval_predicate` (localises a disagreement to front end or evaluators).
 use crate::util::Ctx;
 use std::collections::BTreeSet;
@@ -245,7 +246,7 @@ struct Loaded { engine: Engine, rx: mpsc::Receiver<Event>, where_ast: Option<Exp
 /// the filter through the real front end: a filter stream and a two-step sequence stream
 fn load(filter_vpl: &str) -> Result<Loaded, String> {
     let src = format!(
-        "stream W = T\n    .where({f})\n    .emit(k: id)\n\nstream S = Start as s\n    -> T where {f} as t\n    .emit(k: t.id)\n",
+        "stream W = T\n    .where({f})\n    .emit(k: id)\n\nstream S = Start as s\n    -> T where {f} as t\n    .emit(k: t.id)\n\nstream F = T\n    .where({f})\n\nstream S2 = Start as s2\n    -> F as t2\n    .emit(k: t2.id)\n",
         f = filter_vpl
     );
     let program = varpulis_parser::parse(&src).map_err(|e| format!("parse: {:?} in {}", e, src))?;
@@ -297,17 +298,18 @@ fn run_expr(ctx: &mut Ctx, rt: &tokio::runtime::Runtime, fx: &Fx, events: &[Vec<
             ld.engine.process(start).await.expect("process Start");
             ld.engine.process(ev.clone()).await.expect("process T");
         });
-        let (mut w, mut s) = (false, false);
+        let (mut w, mut s, mut s2) = (false, false, false);
         while let Ok(out) = ld.rx.try_recv() {
             if out.get("k") != Some(&Value::Int(id)) { continue; }
-            match &*out.event_type { "W" => w = true, "S" => s = true, _ => {} }
+            match &*out.event_type { "W" => w = true, "S" => s = true, "S2" => s2 = true, _ => {} }
         }
         let dw = eval_filter_expr(&ast, &ev, SequenceContext::empty()).and_then(|v| v.as_bool()).unwrap_or(false);
         let ds = match &pred { Some(p) => varpulis_runtime::sase::verif_eval_predicate(p, &ev), None => true };
-        ctx.case(&format!("flt {} | {}", etok, event_tok(fields)), &format!("{} {} {} {}", b(w), b(s), b(dw), b(ds)));
+        ctx.case(&format!("flt {} | {}", etok, event_tok(fields)), &format!("{} {} {} {} {}", b(w), b(s), b(dw), b(ds), b(s2)));
         ctx.count(match (w, s) { (true, true) => "sel:both", (false, false) => "sel:neither", (true, false) => "sel:where-only", (false, true) => "sel:step-only" });
         if w != dw { ctx.count("frontend:where-differs-from-direct"); }
         if s != ds { ctx.count("frontend:step-differs-from-direct"); }
+        if s2 != s { ctx.count("frontend:derived-stream-step-differs-from-step"); }
     }
 }
 
